@@ -187,3 +187,38 @@ wrapped!(exec_ristretto255, frost_ristretto255, frost_ristretto255::Ristretto255
 wrapped!(exec_secp256k1, frost_secp256k1, frost_secp256k1::Secp256K1Sha256, frost_secp256k1::aggregate_custom);
 // frost-secp256k1-tr exports no `aggregate_custom` wrapper
 wrapped!(exec_secp256k1_tr, frost_secp256k1_tr, frost_secp256k1_tr::Secp256K1Sha256TR, frost_core::aggregate_custom);
+
+/// frost-ristretto255 is the one ciphersuite crate that exports a `rerandomized` module with its own wrappers
+pub fn exec_ristretto255_rerandomized(op: &str, a: &A) -> Option<String> {
+    type C = frost_ristretto255::Ristretto255Sha512;
+    Some(match op {
+        "rand_sign" => {
+            let msg = unhx(a.get("msg")?)?;
+            let pkg = SigningPackage::<C>::new(p_comms::<C>(a.get("comms")?)?, &msg);
+            let nonces = p_nonces::<C>(a.get("nonces")?)?;
+            let kp = p_kp::<C>(a.get("kp")?)?;
+            let seed = unhx(a.get("seed")?)?;
+            f_out(frost_ristretto255::rerandomized::sign_with_randomizer_seed(&pkg, &nonces, &kp, &seed), |s| {
+                format!("z={}", hx(&s.serialize()))
+            })
+        }
+        "rand_aggregate" => {
+            let msg = unhx(a.get("msg")?)?;
+            let pkg = SigningPackage::<C>::new(p_comms::<C>(a.get("comms")?)?, &msg);
+            let shares: BTreeMap<_, _> = p_recs(p_ff::<C>, a.get("shares")?)?
+                .into_iter()
+                .map(|(i, z)| (i, sigshare::<C>(&z)))
+                .collect();
+            let pkp = p_pkp::<C>(a.get("pkp")?)?;
+            let mode = p_mode(a.get("mode")?)?;
+            let r = frost_rerandomized::Randomizer::<C>::from_scalar(ps::<C>(a.get("r")?)?);
+            let params = frost_rerandomized::RandomizedParams::<C>::from_randomizer(pkp.verifying_key(), r);
+            let res = match mode {
+                CheaterDetection::FirstCheater => frost_ristretto255::rerandomized::aggregate(&pkg, &shares, &pkp, &params),
+                m => frost_ristretto255::rerandomized::aggregate_custom(&pkg, &shares, &pkp, m, &params),
+            };
+            f_out(res, |s| format!("sig={}", f_sig(&s)))
+        }
+        _ => return None,
+    })
+}
